@@ -1,5 +1,5 @@
 from vlib.runner import Obl
-from props.common import ragged_obligations, vault_obligations, krow_obligations, ktab_obligations, TRUSTED as _T
+from props.common import empty_table_obligations, ragged_obligations, bulk_obligations, kget_obligations, vault_obligations, krow_obligations, ktab_obligations, TRUSTED as _T
 
 PROPERTY = "C01"
 EXPLANATION = (
@@ -34,3 +34,9 @@ for _fn in ['arow_set_small', 'arow_insert_small']:
                            stubs=["/verif/shadow/lxml (symdom)"]))
 
 OBLIGATIONS += ragged_obligations(1)
+OBLIGATIONS += bulk_obligations(1)
+# the reads named by the property: row range, column, area, full matrix (pointwise at a symbolic probe)
+OBLIGATIONS += kget_obligations(["kget_rows_small", "kget_values_small", "kget_column_small", "kget_cells_small_cols", "kget_cells_small_rows"],
+                                quick=("kget_rows_small", "kget_column_small"), deep=False)
+
+OBLIGATIONS += empty_table_obligations()
